@@ -10,6 +10,8 @@ import AY.Driver.OpsC19
 import AY.Driver.OpsC18
 import AY.Driver.OpsC12
 import AY.Driver.OpsC08
+import AY.Driver.OpsMeta
+import AY.Driver.OpsBunch
 open Lean AY AY.Codec
 
 def parseDocs (j : Json) : Except String (List (Env × Raw)) :=
@@ -107,6 +109,9 @@ def dispatch (j : Json) : Json :=
   | .ok (.str "c12") => AY.opC12 j
   | .ok (.str "c08tokens") => AY.OpsC08.opC08 j
   | .ok (.str "c08int") => AY.OpsC08.opC08Int j
+  | .ok (.str "metaSplice") => AY.OpsMeta.opMetaSplice j
+  | .ok (.str "metaSplit") => AY.OpsMeta.opMetaSplit j
+  | .ok (.str "bunch") => AY.OpsBunch.opBunch j
   | _ => Json.mkObj [("bad", .str "unknown op")]
 
 partial def loop (h : IO.FS.Stream) (out : IO.FS.Stream) : IO Unit := do
